@@ -9,7 +9,7 @@ from .common.httpgen import generate as _gen
 from .common.codec import hx, unhx
 
 PROPERTY = "C10"
-LEAN_MODULES = ["AioProps.C10"]
+LEAN_MODULES = ["AioProps.C10", "AioProps.C10Run"]
 THEOREMS = [
     "Aio.Http.long_line_rejected",
     "Aio.Http.too_many_headers_rejected",
@@ -18,6 +18,11 @@ THEOREMS = [
     "Aio.Http.chunk_tail_bounded",
     "Aio.Http.long_chunk_size_line_rejected",
     "Aio.Http.rejected_stays_rejected",
+    "Aio.Http.stepOnce_cont_lines",
+    "Aio.Http.stepOnce_stop_retained",
+    "Aio.Http.feedLoop_retained",
+    "Aio.Http.feed_retained",
+    "Aio.Http.feedAll_retained",
 ]
 RULE = ("(a) limit probes: for each syntactic position (request line, status line, header field, chunk-size line incl. extension, "
         "trailer) a stream whose line at that position has length limit-1, limit, limit+1 (limits drawn 8..200, max_line_size != "
